@@ -25,10 +25,11 @@ VERIF = os.path.dirname(os.path.dirname(os.path.dirname(os.path.abspath(__file__
 EVIDENCE_DIR = os.path.join(VERIF, "evidence")
 REPLAY_DIR = os.path.join(VERIF, "replays")
 FINDINGS_FILE = os.path.join(VERIF, "known_findings.json")
+T_IMPORT = time.time()
 NPROC = int(os.environ.get("VERIF_NPROC", str(min(16, os.cpu_count() or 1))))
 
 
-class CaseTimeout(Exception):
+class CaseTimeout(BaseException):
     pass
 
 
@@ -174,8 +175,16 @@ def _run_one(arg):
     try:
         res = _MOD.run_case(case)
     except CaseTimeout:
-        res = {"outcome": "harness-timeout", "key": None, "violations": [],
-               "stats": {}, "timeout": True}
+        tv = getattr(_MOD, "TIMEOUT_IS_VIOLATION", None)
+        if tv:
+            # every solve of this check carries an iteration limit: not returning within an alarm that is
+            # >1000x the normal duration means the limit was not honoured
+            res = {"outcome": "no-return", "key": None, "stats": {},
+                   "violations": [{"sig": f"{_MOD.ID}|no_return_within_alarm",
+                                   "msg": f"{tv} (alarm {horizon}s)"}]}
+        else:
+            res = {"outcome": "harness-timeout", "key": None, "violations": [],
+                   "stats": {}, "timeout": True}
     except BaseException as e:  # harness bug: never a violation
         res = {"outcome": "harness-error", "key": None, "violations": [],
                "stats": {}, "harness_error": "".join(
@@ -207,7 +216,20 @@ def match_finding(findings, prop, sig):
 
 def explore(mod, tier, seed):
     """Run all cases of module `mod`; returns (results list aligned with cases)."""
-    cases = mod.cases(tier, seed)
+    signal.signal(signal.SIGALRM, _alarm)
+    signal.alarm(int(getattr(mod, "CASES_ALARM_S", 1200)))
+    try:
+        cases = mod.cases(tier, seed)
+    except CaseTimeout:
+        tv = getattr(mod, "TIMEOUT_IS_VIOLATION", None)
+        res = {"outcome": "no-return", "key": None, "stats": {}, "violations": []}
+        if tv:
+            res["violations"] = [{"sig": f"{mod.ID}|no_return_within_alarm", "msg": f"{tv} (while preparing the case table: a reference run did not return)"}]
+        else:
+            res["harness_error"] = "building the case table exceeded its alarm"
+        return [{"stage": "case-table"}], [res], 0.0
+    finally:
+        signal.alarm(0)
     order = list(range(len(cases)))
     random.Random(seed).shuffle(order)  # seed only permutes dispatch order
     results = [None] * len(cases)
